@@ -81,7 +81,7 @@ def _gen_lemmas(task):
     for lm in cfile.lemmas:
         try:
             g = engc.VCGen(dict(functions={}, protos={}, relpath=relpath), cfile, consts)
-            g.assumes = []; g.ghostfuns = {}; g.ghost_level = {}; g.uf_mul = False; g._rmul = None
+            g.assumes = []; g.ghostfuns = {}; g.ghost_level = {}; g.uf_mul = False; g._rmul = None; g._rmul_seen = set()
             binds = {}
             for nm, srt in lm['decl']:
                 nm = nm.strip(); srt = srt.strip()
@@ -114,7 +114,7 @@ def prove_lemmas(relpaths, timeout_ms=10000, consts=None):
     return dict(vcs=vcs, failed=failed)
 
 
-def prove(tasks, timeout_ms=10000, consts=None):
+def prove(tasks, timeout_ms=10000, consts=None, short=()):
     """tasks: list of (relpath, function).  Returns dict(functions=[...], vcs=[...], covers=[...])"""
     load_tus(sorted({r for r, _ in tasks}))
     jobs = [(r, f, consts or {}, timeout_ms) for r, f in tasks]
@@ -126,7 +126,7 @@ def prove(tasks, timeout_ms=10000, consts=None):
         if not g['ok']:
             failed.append(g); continue
         vcs += g['vcs']; covers += g['covers'] + [g['reqsat']]
-    todo = [(v['id'], v['smt2'], timeout_ms, True, v.get('smt2_relaxed')) for v in vcs if v.get('smt2')]
+    todo = [(v['id'], v['smt2'], (min(timeout_ms, 4000) if (v['file'], v['fn']) in short else timeout_ms), True, v.get('smt2_relaxed')) for v in vcs if v.get('smt2')]
     t1 = time.time()
     res = {r['id']: r for r in solve.solve_all(todo)}
     for v in vcs:
